@@ -5,7 +5,7 @@ import json
 import math
 from fractions import Fraction as F
 
-from .. import core, oracle, rulegen, rules, ruleprops, solverbox
+from .. import core, history, oracle, rulegen, rules, ruleprops, solverbox
 from ..core import Case
 from ..ruleprops import violation
 from . import C02
@@ -69,6 +69,7 @@ def run(ctx, compare=True, n_pd=None, n_ilp=None):
     n_pd = n_pd or ctx.scale(1500, 10000)
     n_ilp = n_ilp if n_ilp is not None else ctx.scale(150, 1200)
     ruleprops.run_items(ctx, pairs(ctx, n_pd, m_hi), predicate_pd, nontrivial, compare=compare)
+    history.run_history(ctx, "maxw", ctx.scale(200, 2000))
     # ILP path, isolated
     box = solverbox.Box()
     try:
@@ -113,6 +114,8 @@ def search(ctx, disagreements):
 
 
 def replay(payload):
+    if payload.get("cfg", {}).get("history"):
+        return history.replay(payload)
     case = Case.from_json(payload["case"])
     cfg = ruleprops.cfg_from_json(payload["cfg"])
     if cfg.get("algo") == "ilp":
